@@ -102,13 +102,26 @@ impl PT {
 }
 
 /// random linear/non-linear pattern; binders get unique names (>= 200), never used free
+/// Pattern variable names: the naming scheme varies with the case (substitutions are hash maps keyed by the variable name, so
+/// names of other lengths and spellings give other iteration orders and bucket layouts); injective in `k` for every scheme.
+fn vname(prefix: char, k: usize) -> String {
+    const SHORT_V: [&str; 9] = ["x", "y", "z", "w", "p", "q", "r", "s", "t"];
+    const SHORT_M: [&str; 9] = ["a", "b", "c", "d", "e", "f", "g", "h", "i"];
+    match crate::core::case_salt() % 4 {
+        1 if k < 9 => (if prefix == 'v' { SHORT_V[k] } else { SHORT_M[k] }).to_string(),
+        2 => format!("{prefix}_variable_number_{k}"),
+        3 => format!("{}{prefix}", "k".repeat(k + 1)),
+        _ => format!("{prefix}{k}"),
+    }
+}
+
 fn gen_pattern(r: &mut Rng, depth: usize, nfree: usize, next_b: &mut Name, scope: &mut Vec<Name>, vars: &mut Vec<String>, ops: &[&'static str]) -> PT {
     if depth == 0 && r.chance(2, 3) || r.chance(1, 4) {
         // variable, sometimes a repeated one
         if !vars.is_empty() && r.chance(1, 3) {
             return PT::Var(r.pick(vars).clone());
         }
-        let v = format!("v{}", vars.len());
+        let v = vname('v', vars.len());
         vars.push(v.clone());
         return PT::Var(v);
     }
@@ -227,7 +240,7 @@ fn abstract_term(r: &mut Rng, t: &Tm, vars: &mut Vec<(String, Tm)>, depth: usize
                 return PT::Var(v.clone());
             }
         }
-        let v = format!("v{}", vars.len());
+        let v = vname('v', vars.len());
         vars.push((v.clone(), t.clone()));
         return PT::Var(v);
     }
@@ -341,7 +354,7 @@ pub fn c05_case(rng: &mut Rng) -> CaseOut {
             let t = terms[rng.below(terms.len())].canon();
             let mut counter = 0;
             fn flat(t: &Tm, eqs: &mut Vec<(String, String, Vec<String>)>, counter: &mut usize, r: &mut Rng, depth: usize) -> String {
-                let me = format!("m{}", *counter);
+                let me = vname('m', *counter);
                 *counter += 1;
                 if depth >= 2 || (depth > 0 && r.chance(1, 3)) {
                     return me; // left as a free variable
